@@ -572,6 +572,25 @@ func c04(c *Ctx) {
 					var nd *uhppote.Device
 					_ = nd.ID()
 				})
+				// ... every result-bearing operation and a listener event on a client whose controller is a sparse struct literal (no
+				// time zone, no doors, no protocol), with a valid reply carrying a real system date and time
+				{
+					sparse := uhppote.NewUHPPOTE(types.BindAddr{}, types.BroadcastAddr{}, types.ListenAddr{AddrPort: netip.MustParseAddrPort("127.0.0.1:60001")}, time.Millisecond,
+						[]uhppote.Device{{DeviceID: serial, Address: types.ControllerAddr{AddrPort: netip.MustParseAddrPort("192.168.1.100:60000")}}}, false)
+					sd := &adapter.MemDriver{Scribble: true}
+					if adapter.Install(sparse, sd) {
+						ops := replyOps()
+						op := ops[r.Pick(len(ops))]
+						a, p := r.Args(op)
+						aux := toAux(p)
+						fixArgs(op, a, aux)
+						reply := validReply(r, op, serial, a)
+						sd.Script = func(adapter.Invocation) ([][]byte, error) { return [][]byte{reply}, nil }
+						if _, pan := adapter.SafeCall(sparse, op.Name, serial, a, aux); pan {
+							c.Res.Violate("C04:argument:sparse-device:"+op.Name, op.Name+" panicked on a client whose controller was configured as a struct literal without time zone, doors or protocol", w(), caseNo)
+						}
+					}
+				}
 			case 11:
 				// text and JSON parsers of the public types with hostile text
 				in, _ := mkInput()
